@@ -818,6 +818,7 @@ struct BCounts {
     not_buildable: u64,
     inproc_pairs_equal: u64,
     product_pairs_equal: u64,
+    product_reused_dir_equal: u64,
     product_not_buildable: u64,
     persisted_events: u64,
     persisted_eq: u64,
@@ -842,6 +843,7 @@ impl BCounts {
         self.not_buildable += o.not_buildable;
         self.inproc_pairs_equal += o.inproc_pairs_equal;
         self.product_pairs_equal += o.product_pairs_equal;
+        self.product_reused_dir_equal += o.product_reused_dir_equal;
         self.product_not_buildable += o.product_not_buildable;
         self.persisted_events += o.persisted_events;
         self.persisted_eq += o.persisted_eq;
@@ -1078,6 +1080,33 @@ fn check_build(src_name: &str, path: &Path, opts: &fcx::Opts, product: bool, cnt
         if pa.code == Some(2) && pa.stderr.contains("Usage:") {
             vcore::machinery_error(&format!("the product binary rejects the arguments {:?}: {}", cli_args(opts), pa.stderr));
         }
+        // (a') history: the build directory was used before, by a bigger source; the font is taken from the default
+        // output location inside the build directory (the file the persistence layer writes)
+        if let (Some(0), Some(plain_font)) = (pa.code, fa.as_ref()) {
+            let reuse = dir.join("build-reuse");
+            let big = std::path::Path::new(vcore::REPO).join("resources/testdata/glyphs3/Oswald-AE-comb.glyphs");
+            let mut first = vcore::fontc_cmd(&vcore::fontc_bin(), None);
+            first.env("RAYON_NUM_THREADS", "2").arg(&big).arg("--emit-ir").arg("-b").arg(&reuse);
+            let p1 = vcore::run_proc(&mut first, 120_000, Some(8 << 30));
+            let big_len = std::fs::metadata(reuse.join("font.ttf")).map(|m| m.len()).unwrap_or(0);
+            if p1.code == Some(0) && big_len > plain_font.len() as u64 {
+                let mut second = vcore::fontc_cmd(&vcore::fontc_bin(), None);
+                second.env("RAYON_NUM_THREADS", "2").arg(path).arg("--emit-ir").arg("-b").arg(&reuse).args(cli_args(opts));
+                let p2 = vcore::run_proc(&mut second, 120_000, Some(8 << 30));
+                match (p2.code, std::fs::read(reuse.join("font.ttf"))) {
+                    (Some(0), Ok(b)) if b == *plain_font => cnt.product_reused_dir_equal += 1,
+                    (Some(0), Ok(b)) => bad.push((
+                        "font-differs-with-ir:reused-build-directory".into(),
+                        format!("fontc --emit-ir into a build directory last used by a bigger source gives {} bytes, a build without IR {} bytes ({})", b.len(), plain_font.len(),
+                            if b.len() > plain_font.len() && b[..plain_font.len()] == plain_font[..] { "the new font followed by stale bytes of the old one" } else { "different content" }),
+                    )),
+                    (c, _) => bad.push((
+                        "outcome-differs-with-ir:reused-build-directory".into(),
+                        format!("builds without IR, but with --emit-ir into a used build directory: {c:?}; stderr: {}", p2.stderr.lines().last().unwrap_or("")),
+                    )),
+                }
+            }
+        }
         match (pa.code, pb.code, fa, fb) {
             (Some(0), Some(0), Some(a), Some(b)) => {
                 if a == b {
@@ -1182,6 +1211,7 @@ fn part_font(rep: &mut Reporter, tier: Tier) -> Stats {
     rep.set("build_sources_not_buildable", json!(not_buildable));
     rep.set("inprocess_pairs_identical", total.inproc_pairs_equal);
     rep.set("product_binary_pairs_identical", total.product_pairs_equal);
+    rep.set("product_binary_builds_into_a_used_build_directory_identical", total.product_reused_dir_equal);
     rep.set("product_binary_cases_not_buildable", total.product_not_buildable);
     rep.set("persisted_events", total.persisted_events);
     rep.set("persisted_events_compared_by_eq", total.persisted_eq);
